@@ -1,3 +1,4 @@
+#![allow(dead_code)]
 //! pmtsim — deterministic simulation with fault injection for the pmtiles2 crate.
 //!
 //!   pmtsim check <ID> <quick|thorough>     run a property's check, write evidence, exit 0/1/2
@@ -38,6 +39,10 @@ fn env_u64(k: &str) -> Option<u64> {
 fn main() {
     sut::install_panic_hook();
     let args: Vec<String> = std::env::args().skip(1).collect();
+    if let Err(e) = spec::selftest() {
+        eprintln!("harness error: {e}");
+        std::process::exit(2);
+    }
     let code = match args.first().map(String::as_str) {
         Some("check") => {
             let (Some(id), Some(tier)) = (args.get(1), args.get(2)) else {
